@@ -354,6 +354,22 @@ class Ctx:
         if self.check(tier=2, timeout=self.o['feas_timeout']) == 'unsat':
             raise Infeasible()
 
+    def assume_all(self, conds, why=None):
+        """several preconditions at once (one feasibility check instead of one per condition)"""
+        if self.mode == 'conc':
+            for c in conds:
+                if not bool(c):
+                    raise ReplayInvalid(why or 'assumption')
+            return
+        for c in conds:
+            t = c.t if isinstance(c, SB) else c
+            if isinstance(t, z3.ExprRef):
+                self.pc.append(t)
+            elif not t:
+                raise Infeasible()
+        if self.check(tier=2, timeout=self.o['feas_timeout']) == 'unsat':
+            raise Infeasible()
+
     def fact(self, cond):
         """Contract fact about fresh contract symbols (e.g. `A X = B`, `grad chi2(p) = 0`): added to every later query that
         mentions one of its contract symbols (transitively); not checked for feasibility."""
@@ -414,6 +430,14 @@ class Ctx:
             self.pos += 1
             self.pc.append(cond if d else z3.Not(cond))
             return d
+        # a condition that literally is (the negation of) an assumed / decided formula needs no solver
+        known = self._pc_index()
+        k_, pol_ = _atom_key(cond)
+        if k_ is not None and k_ in known:
+            val = known[k_] if pol_ else (not known[k_])
+            self.decisions.append(val)
+            self.pos += 1
+            return val
         ft_ = self.o['feas_timeout']
         ftier = self.o.get('feas_tier', 2)
         # a condition that is valid / unsatisfiable on its own needs no path condition (keeps heavy contexts out of trivial tests)
@@ -451,6 +475,16 @@ class Ctx:
         self.pos += 1
         self.pc.append(cond if d else z3.Not(cond))
         return d
+
+    def _pc_index(self):
+        """normal-form keys of the (dis)equalities / comparisons in the path condition -> truth value of the positive atom"""
+        n0, idx = getattr(self, '_pcidx', (0, {}))
+        for f in self.pc[n0:]:
+            k, pol = _atom_key(f)
+            if k is not None:
+                idx[k] = pol
+        self._pcidx = (len(self.pc), idx)
+        return idx
 
     # ---------------------------------------------------------------- obligations
     def _record(self, label, res, **kw):
@@ -666,6 +700,27 @@ def default_value(name, salt=0):
     if salt == 4:
         return 0.3 + 0.15 * k + 0.2 * u
     return 0.5 + u
+
+
+def _atom_key(f):
+    """(key, polarity) of a possibly negated real equality `a == b`: key identifies the canonical polynomial +-(a - b);
+    f is equivalent to the atom if polarity else to its negation. (None, True) for other formulas."""
+    pol = True
+    g = f
+    while z3.is_not(g):
+        g = g.arg(0)
+        pol = not pol
+    if z3.is_distinct(g) and g.num_args() == 2:
+        pol = not pol
+    elif not z3.is_eq(g):
+        return None, True
+    if g.arg(0).sort().kind() != z3.Z3_REAL_SORT:
+        return None, True
+    if _expanded_size(g.arg(0) - g.arg(1), 400) > 400:
+        return None, True
+    s1 = canon(g.arg(0) - g.arg(1)).sexpr()
+    s2 = canon(g.arg(1) - g.arg(0)).sexpr()
+    return min(s1, s2), pol
 
 
 def _num_to_str(val):
